@@ -27,6 +27,7 @@ func main() {
 	verif := flag.String("verif", "", "verification directory (default: parent of the binary's dir)")
 	explain := flag.String("explain", "", "print a violations file in readable form")
 	goarch := flag.String("goarch", "", "GOARCH to analyse for")
+	goos := flag.String("goos", "", "GOOS to analyse for")
 	list := flag.Bool("list", false, "list registered properties")
 	explore := flag.String("explore", "", "diagnostic listing (not a check)")
 	evdir := flag.String("evidence-dir", "", "write evidence here instead of <verif>/evidence (used by the mutation self-tests)")
@@ -44,7 +45,7 @@ func main() {
 		return
 	}
 	if *explore != "" {
-		p, err := LoadProgram(LoadOpts{RepoDir: *repo, GOARCH: *goarch})
+		p, err := LoadProgram(LoadOpts{RepoDir: *repo, GOARCH: *goarch, GOOS: *goos})
 		if err != nil {
 			fmt.Println(err)
 			os.Exit(2)
@@ -84,7 +85,7 @@ func main() {
 	if *prop == "all" {
 		// self-test convenience: one load, every registered property
 		start := time.Now()
-		p, err := LoadProgram(LoadOpts{RepoDir: *repo, GOARCH: *goarch})
+		p, err := LoadProgram(LoadOpts{RepoDir: *repo, GOARCH: *goarch, GOOS: *goos})
 		if err != nil {
 			fmt.Printf("LOAD FAILURE: %v\n", err)
 			os.Exit(1)
@@ -118,7 +119,7 @@ func main() {
 		os.Exit(2)
 	}
 	start := time.Now()
-	p, err := LoadProgram(LoadOpts{RepoDir: *repo, GOARCH: *goarch})
+	p, err := LoadProgram(LoadOpts{RepoDir: *repo, GOARCH: *goarch, GOOS: *goos})
 	if err != nil {
 		// a tree that does not load/type-check is reported as a violation of the
 		// check's precondition: exit 1 with a VIOLATION line, as nothing can be decided
